@@ -10,3 +10,10 @@ package eventnotifier
 //@ nonblocking (*EventNotifier).PublishSSH, (*EventNotifier).PublishX509, (*EventNotifier).PublishAuthEvent, (*EventNotifier).PublishWebLoginEvent, (*EventNotifier).PublishServiceProviderLoginEvent, (*EventNotifier).PublishVIPAuthEvent  #C20.publish-never-blocks @C20
 // the table of subscriber channels is only used under the notifier's mutex (C16's discipline for this package)
 //@ guarded_by EventNotifier.mutex : EventNotifier.transmitChannels  #C16.eventnotifier-mutex @C16,C20
+// publishing never unsubscribes anybody: whoever was in the table when the publisher took the mutex is still in it
+// when the publisher is done (a subscriber leaves only through its own connection handler)
+//@ import "github.com/Cloud-Foundations/keymaster/proto/eventmon"
+//@ func (*EventNotifier).transmitEvent
+//@   ensures sincelock (forall ch chan<- eventmon.EventV0 :: old(hasKey(n.transmitChannels, ch)) ==> hasKey(n.transmitChannels, ch))   #C20.publishing-keeps-every-subscriber @C20
+//@ func (*EventNotifier).publishCert
+//@   ensures sincelock (forall ch chan<- eventmon.EventV0 :: old(hasKey(n.transmitChannels, ch)) ==> hasKey(n.transmitChannels, ch))   #C20.publishing-certificates-keeps-every-subscriber @C20
